@@ -797,20 +797,28 @@ impl Buffer {
                 let sy = layer.get_offset().y + sixel.position.y - rect.start.y;
                 let sy_pix = sy * font_size.height;
                 let sixel_line_bytes = (sixel.get_width() * 4) as usize;
+                // the part of the picture that lies inside the rendered rectangle
+                let x0 = sx_px.max(0);
+                let x1 = (sx_px + sixel.get_width()).min(px_width);
+                if x0 >= x1 {
+                    continue;
+                }
+                let skip = ((x0 - sx_px) * 4) as usize;
+                let len = ((x1 - x0) * 4) as usize;
 
-                let mut sixel_line = 0;
-                for y in sy_pix..(sy_pix + sixel.get_height()) {
+                for (sixel_line, y) in (sy_pix..(sy_pix + sixel.get_height())).enumerate() {
                     if y < 0 {
                         continue;
                     }
-                    let y = y as usize;
-                    let offset = y * line_bytes as usize + sx_px as usize * 4;
-                    let o = sixel_line * sixel_line_bytes;
-                    if offset + sixel_line_bytes > pixels.len() {
+                    if y >= px_height {
                         break;
                     }
-                    pixels[offset..(offset + sixel_line_bytes)].copy_from_slice(&sixel.picture_data[o..(o + sixel_line_bytes)]);
-                    sixel_line += 1;
+                    let offset = y as usize * line_bytes as usize + x0 as usize * 4;
+                    let o = sixel_line * sixel_line_bytes + skip;
+                    if o + len > sixel.picture_data.len() {
+                        break;
+                    }
+                    pixels[offset..(offset + len)].copy_from_slice(&sixel.picture_data[o..(o + len)]);
                 }
             }
         }
